@@ -255,12 +255,93 @@ func EnsureRawValue(in interface{}) reflect.Value {
 	return reflect.ValueOf(in)
 }
 
-// valueOrZero returns v, or the zero value of typ when v is the invalid value a decoded null yields
-func valueOrZero(v reflect.Value, typ reflect.Type) reflect.Value {
-	if v.IsValid() {
-		return v
+// convertValue converts a decoded value to the type of a typed destination:
+// a null becomes the zero value, int32/int64/float64 are converted to the numeric kind of typ,
+// pointers are packed or unpacked to the level of typ, and the elements of
+// generic lists and maps are converted one by one.
+func convertValue(v reflect.Value, typ reflect.Type) (reflect.Value, error) {
+	if !v.IsValid() {
+		return reflect.Zero(typ), nil
 	}
-	return reflect.Zero(typ)
+	if h, ok := v.Interface().(*_refHolder); ok {
+		v = h.value
+	}
+	for v.Kind() == reflect.Interface {
+		if v.IsNil() {
+			return reflect.Zero(typ), nil
+		}
+		v = v.Elem()
+	}
+	if v.Type() == typ {
+		return v, nil
+	}
+
+	kind := typ.Kind()
+	if kind != reflect.Ptr && kind != reflect.Interface {
+		v = UnpackPtrValue(v)
+		if v.Kind() == reflect.Ptr {
+			return reflect.Zero(typ), nil // nil pointer
+		}
+	}
+
+	switch {
+	case kind == reflect.Ptr:
+		if v.Kind() == reflect.Ptr && v.IsNil() {
+			return reflect.Zero(typ), nil
+		}
+		elem, err := convertValue(v, typ.Elem())
+		if err != nil {
+			return _zeroValue, err
+		}
+		return PackPtr(elem), nil
+	case IntKind(kind) && (IntKind(v.Kind()) || UintKind(v.Kind())):
+		cv := reflect.New(typ).Elem()
+		if IntKind(v.Kind()) {
+			cv.SetInt(v.Int())
+		} else {
+			cv.SetInt(int64(v.Uint()))
+		}
+		return cv, nil
+	case UintKind(kind) && (IntKind(v.Kind()) || UintKind(v.Kind())):
+		cv := reflect.New(typ).Elem()
+		if IntKind(v.Kind()) {
+			cv.SetUint(uint64(v.Int()))
+		} else {
+			cv.SetUint(v.Uint())
+		}
+		return cv, nil
+	case FloatKind(kind) && FloatKind(v.Kind()):
+		cv := reflect.New(typ).Elem()
+		cv.SetFloat(v.Float())
+		return cv, nil
+	case kind == reflect.Slice && v.Kind() == reflect.Slice && typ.Elem().Kind() != reflect.Uint8:
+		cv := reflect.MakeSlice(typ, v.Len(), v.Len())
+		for i := 0; i < v.Len(); i++ {
+			item, err := convertValue(v.Index(i), typ.Elem())
+			if err != nil {
+				return _zeroValue, err
+			}
+			cv.Index(i).Set(item)
+		}
+		return cv, nil
+	case kind == reflect.Map && v.Kind() == reflect.Map:
+		cv := reflect.MakeMapWithSize(typ, v.Len())
+		for _, k := range v.MapKeys() {
+			ck, err := convertValue(k, typ.Key())
+			if err != nil {
+				return _zeroValue, err
+			}
+			ce, err := convertValue(v.MapIndex(k), typ.Elem())
+			if err != nil {
+				return _zeroValue, err
+			}
+			cv.SetMapIndex(ck, ce)
+		}
+		return cv, nil
+	case v.Type().AssignableTo(typ):
+		return v, nil
+	}
+	return _zeroValue, newCodecError("convertValue", "can't convert %v to %v", v.Type(), typ)
 }
 
 //EnsurePackValue pack the interface with value
@@ -546,6 +627,13 @@ func SetValue(dest, v reflect.Value) {
 	case reflect.Uint, reflect.Uint8, reflect.Uint16, reflect.Uint32, reflect.Uint64:
 		dest.SetUint(EnsureUint64(v.Interface()))
 		return
+	}
+
+	// convert decoded generic containers, wire numbers and pointer levels to the type of dest
+	if !v.Type().AssignableTo(dest.Type()) {
+		if cv, err := convertValue(v, dest.Type()); err == nil {
+			v = cv
+		}
 	}
 
 	dest.Set(v)
